@@ -141,7 +141,7 @@ func (c19) Cases(tier string, seed uint64) []fw.Case {
 		add("c19-"+h.Kind+"-"+h.Name, kind, Payload{Name: h.Name, Source: h.Source}, dedupe(tags))
 	}
 	// (b) generated programs
-	n := 500
+	n := 400
 	if tier == "thorough" {
 		n = 13000
 	}
